@@ -9,7 +9,14 @@ Judge (exact rationals): Ok(point) -> the point is feasible within the tolerance
 tol(row), ints exact) AND its objective is not worse than the exact optimum by more than
       tol_obj = 4 * max( tol(row)/|c_obj(row)| over rows containing the objective variable, 5*step + 1e-5*B_obj )
 (being BETTER than the optimum is bounded by the feasibility clause).  Err(NoSolution) -> the exact model must be infeasible.
-Err(Timeout) is a limit and is not judged.
+Err(Timeout) is a limit and is not judged.  A model with strict rows that is feasible only ON THE BOUNDARY of a strict row (the
+exact model with every strict row demanded with a margin is infeasible, e.g. `x0 < x1` together with `x0 > x1`) has no optimum to
+attain: NoSolution is accepted there, and so is any point that passes the feasibility clause (the objective clause is waived).
+
+Root LP step (finding D10, repaired): the LP vertex is tried first and the untouched root is searched when the vertex cannot be
+applied, fails to propagate, or has no solution below it.  The former known class `lp_root` is gone; its witnesses are kept in
+corpus/solvef.opt_{default,lp_only,fixed_vars}.cases.  What the repaired step still ASSUMES of the f64 simplex (a solution found
+below the vertex is answered without looking further; an `Infeasible` verdict is trusted) is judged here against the exact LP.
 
 Families (solvef, all ORACLE-ONLY: minimize/maximize dispatch, the root LP step with its f64 simplex and the optimisation
 fast path have no Coq model; what IS compared with a model is the DISPATCH: the harness reports through hook H5 whether the
@@ -34,6 +41,8 @@ ASSUMPTIONS = [
     "no limit fires: Timeout answers are not judged",
     "strict rows are read as non-strict",
     "the f64 simplex (known findings of C09), the fast-path optimisers and the B&B termination are NOT modelled: proof-partial; only the dispatch predicates (root_lp_gate, fast_path_consulted) are Coq definitions compared with the implementation; the acceptance of a fast-path candidate (FloatDispatch.fp_accepts = Model::accepts_candidate: feasible by propagation on the fixed store, optimal against the root-propagated bound) is a Coq definition read off the source with theorem fast_path_answers_are_checked, not compared case by case (the families with `fp` judge its effect: 0 infeasible or non-optimal answers)",
+    "root LP step (repaired, finding D10): ORACLE assumption of coq/Model/LpRoot.v -- the step hands the engine nothing or a vertex store; the integer-model theorems (Properties/C04.v lp_tentative_sound, minimize_lp_ok_iff_sat) hold for every such answer; that a first-phase answer is optimal and that an LP verdict Infeasible is right rests on the LP being a relaxation solved accurately enough, which is judged here case by case against the exact LP and not proved",
+    "a model feasible only on the boundary of a strict row has no optimum: NoSolution and any tolerance-feasible point are both accepted",
 ]
 RULE = ("random linear float/mixed models built around an interior point (so ~90 % feasible), 1-4 variables, 1-4 rows, three posting routes mixed per model, both directions; "
         "non-trivial = the implementation returned a point or NoSolution")
@@ -161,11 +170,13 @@ def lp_lines(case, tighten=False):
         for r in case.rows:
             if not r.linear or r.rel == "ne": continue
             k = r.const - sum((c * val[v] for v, c in r.coeffs.items() if v in val), Fraction(0))
-            if tighten and r.rel in ("lt", "gt"):
+            if (tighten and r.rel in ("lt", "gt")) or (tighten == "all" and r.rel in ("le", "ge")):
                 # strict row: demand it with a margin (the code lowers `<` to `<= K - step`), so that an answer NoSolution
                 # is only held against the implementation when the model is feasible with strict rows ROBUSTLY satisfied
                 mg = case.tol(r) + case.step * (1 + sum((abs(c) for c in r.coeffs.values()), Fraction(0)))
-                k = k - mg if r.rel == "lt" else k + mg
+                if tighten == "all":
+                    mg = Fraction(-((-mg.numerator * 2 ** 20) // mg.denominator), 2 ** 20)   # rounded up to 2^-20: the driver reads 63-bit numerators
+                k = k - mg if r.rel in ("lt", "le") else k + mg
             row = [r.coeffs.get(v, Fraction(0)) for v in fv]
             rels = {"le": [1], "lt": [1], "ge": [-1], "gt": [-1], "eq": [1, -1]}[r.rel]
             for sg in rels:
@@ -223,6 +234,7 @@ class Oracle:
         return self.memo[line]
 ORACLE = Oracle()
 ORACLE_STRICT = Oracle(tighten=True)
+ORACLE_ROBUST = Oracle(tighten="all")     # every inequality row demanded with the margin (class ineq_pinned_offgrid)
 def prejudge(cases, impls, models):
     ORACLE.solve_many(cases)
 
@@ -261,6 +273,8 @@ def verdict(line, impl):
     z, t = ex[1], tol_obj(case)
     d = (vals[obj] - z) if case.entry[0] == "min" else (z - vals[obj])
     if d > t:
+        if any(r.rel in ("lt", "gt") for r in case.rows) and ORACLE_STRICT.get(line)[0] != "opt":
+            return None, []      # feasible only on the boundary of a strict row: no optimum to attain (cf. the NoSolution clause)
         return "objective %.9g is worse than the exact optimum %.9g by %.3g (tolerance %.3g)" % (float(vals[obj]), float(z), float(d), float(t)), []
     return None, []
 
@@ -301,27 +315,42 @@ def lp_gate(case):
     obj = int(case.entry[1][1:])
     return rows >= 1 and len(vs) >= 2 and obj in vs
 
+def int_lt_float_const(case):
+    """m.props.less_than(x, c) with x an INTEGER variable and c a float constant that is not an integer: lowered to
+    x.next() <= c = x + 1 <= c, which excludes the integers in (c - 1, c): x in {-1, 0}, x < -0.5 has no solution.
+    (Found when the blanket attribution to lp_root was removed: not an LP matter, same answer with the LP step off.)"""
+    for r in case.rows:
+        t = r.text.split()
+        if r.route == "props" and len(t) == 4 and t[1] == "lt" and t[2].startswith("x") and t[3].startswith("f:") \
+                and not case.is_float(int(t[2][1:])) and Fraction(r.const).denominator != 1:
+            return True
+    return False
+
 def classify(line, impl, cls):
     why, cs = verdict(line, impl)
     if why is None:
         return cls
     case = fm.Case(line)
-    # attribution, most specific first: a failing clause that is itself a constraint of a known row class; then the root LP
-    # step when hook H5 says it ran; then, for NoSolution / a wrong optimum, the row classes present in the model.
-    # (The former class fast_path is gone: since the repair "fast-path candidates are verified" no failure is attributed to it.)
+    # attribution, most specific first: a failing clause that is itself a constraint of a known row class; then, for
+    # NoSolution / a wrong optimum, the row classes present in the model.  Nothing is attributed to an OPTIMISER any more:
+    # the root LP vertex is tentative since 0ca81bd (finding D10 repaired: a NoSolution with lp=1 is the verdict of the plain
+    # search on the root, or of an LP that claims infeasibility -- a VIOLATION unless the model lies in a row class below),
+    # and fast-path candidates are verified since 6338bfe (former class fast_path).
     if cs and all(c is not None for c in cs): return cs[0]
-    if impl.endswith("lp=1") and impl.startswith("err NoSolution"):
-        # D10's only symptom: the LP vertex, fixed on every LP variable, contradicts the remaining constraints or an integer
-        # domain, so a satisfiable model is reported infeasible.  A WRONG OPTIMUM or an INFEASIBLE POINT with the LP step on is
-        # not D10 (a vertex that satisfies every constraint is optimal over a relaxation, hence optimal) and is not attributed.
-        # (narrowing by variable type does not work: an off-grid vertex on an all-float, <=-only model is rejected too)
-        return "lp_root"
     rc = row_classes(case)
     if rc: return sorted(rc)[0]
     if impl.startswith("err NoSolution") and fm.bounds_pinch_offgrid(case):
         return "bounds_pinch_offgrid"   # constant bounds pinch a float variable to a non-empty interval without a grid point
     if impl.startswith("err NoSolution") and any(r.linear and r.rel == "eq" and any(case.is_float(v) for v in r.coeffs) for r in case.rows):
         return "float_eq_offgrid"    # equality rows over float variables whose solution set misses the step grid
+    if int_lt_float_const(case):
+        return "int_lt_float_const"
+    if impl.startswith("err NoSolution") and ORACLE_ROBUST.get(line)[0] == "infeasible":
+        # the inequality analogue: <= / >= rows that pin a float variable between two bounds closer than the margin
+        # (x0 >= 0.75 and x0 <= 0.75 at precision 1): no grid point passes the propagators.  Decided exactly: the model
+        # with every inequality row tightened by tol(row) + step*(1 + sum|c|) is infeasible.  (These cases used to be
+        # counted under lp_root, because the unrepaired LP step answered NoSolution on them as well.)
+        return "ineq_pinned_offgrid"
     return None
 
 def split_gate(model_line):
